@@ -219,7 +219,7 @@ MUTABLE_PATHS = [
 ]
 ASSIGNABLE = ["window_type_and_width", "filter_corner_frequencies_in_hz", "window_length_in_seconds",
               "detrend", "handle_dissimilar_time_steps_by", "azimuth_in_degrees", "azimuths_in_degrees",
-              "ppth_percentile_for_rotdpp_computation", "orient_to_degrees_from_north", "fft_settings"]
+              "ppth_percentile_for_rotdpp_computation", "orient_to_degrees_from_north", "fft_settings", "smoothing_none"]
 
 
 def draw_value_for(rng, attr):
@@ -463,7 +463,14 @@ def execute(triple, prop):
                             ctx.probe("mutated_in_place")
                             ctx.state_changes += 1
                     else:
-                        if op["attr"] in o.attrs:
+                        if op["attr"] == "smoothing_none":
+                            # a PSD without smoothing: the documented way is smoothing = None (set by assignment)
+                            if type(o).__name__ == "PsdProcessingSettings":
+                                o.smoothing = None
+                                sigx = "assign:smoothing=None"
+                                ctx.state_changes += 1
+                                ctx.probe("psd_smoothing_none")
+                        elif op["attr"] in o.attrs:
                             setattr(o, op["attr"], dec(op["value"]))
                             sigx = "assign:" + op["attr"]
                             ctx.state_changes += 1
